@@ -1,6 +1,6 @@
 (* C09 - every producer emits only well-formed event streams (Visitor contract).
    Statements only; proofs are in Core/AdapterProofs.v. *)
-From SF Require Import Base.Prelude Core.Events Core.EventsProofs Core.AdapterProofs Cbor.Spec Cbor.Parse Cbor.ConformanceProofs Gotype.Types Gotype.Fold Gotype.FoldProofs.
+From SF Require Import Base.Prelude Core.Events Core.EventsProofs Core.AdapterProofs Cbor.Spec Cbor.Parse Cbor.ConformanceProofs Cbor.ComposeProofs Gotype.Types Gotype.Fold Gotype.FoldProofs.
 
 (* The contract monitor [contract_ok] (balanced and properly nested starts/finishes, one
    key before every member value, an announced non-negative length equals the number of
@@ -49,3 +49,13 @@ Theorem C09_fold : forall t v evs,
   has_type t v = true -> fold_value t v = (evs, None) -> contract_ok evs = true.
 Proof. exact FoldProofs.C09_fold. Qed.
 Print Assumptions C09_fold.
+
+(* CBOR parser, EVERY accepted input (not only reference-valid ones: the parser accepts
+   nothing else): the events are the concatenation of well-formed values, one per
+   top-level item, with the values the reference decoder assigns. *)
+Theorem C09_cbor_accepted : forall b evs, all_bytes b = true -> (zlen b <=? MaxInt64) = true ->
+  run_parse None b = Ok (evs, nilE) ->
+  exists ts, evs = flat_map flatten ts /\ forallb wf_tree ts = true /\
+             cbor_decode_all (S (length b)) b = Some (map (fun t => cv (value_of t)) ts).
+Proof. exact C09_cbor_accepted_wf. Qed.
+Print Assumptions C09_cbor_accepted.
